@@ -541,6 +541,10 @@ func (c *evalCtx) evalField(x *EField) TV {
 	}
 	v := c.eval(x.X)
 	if tv, ok := c.selectField(v, x.Name); ok {
+		if !strings.Contains(tv.T, "|q:") && tv.Typ != nil && (tv.Sort == "Slice" || tv.Sort == "Ref") {
+			// the heap is closed: what a field holds is allocated in the state it is read from
+			c.e.assumeWFg(tv.T, tv.Typ, c.cur(), "true")
+		}
 		return tv
 	}
 	c.fail("no field %s on %s (type %v)", x.Name, x.X.String(), v.Typ)
@@ -679,6 +683,16 @@ func (c *evalCtx) evalCall(x *ECall) TV {
 			}
 		}
 		c.fail("len of %s", v.Sort)
+	case "recovered":
+		// recovered(): the value recover() returns in a deferred function
+		return TV{T: e.recoveredValue(), Typ: types.NewInterfaceType(nil, nil), Sort: "Iface"}
+	case "arr":
+		// arr(s): the backing array of slice s
+		v := c.eval(x.Args[0])
+		if v.Sort != "Slice" {
+			c.fail("arr() of non-slice")
+		}
+		return TV{T: fmt.Sprintf("(sl.arr %s)", v.T), Sort: "Ref"}
 	case "cap":
 		v := c.eval(x.Args[0])
 		return c.intTV(fmt.Sprintf("(sl.cap %s)", v.T))
@@ -897,6 +911,7 @@ type desigKey struct {
 	key, sort string
 	index     string // "" = whole
 	elemSort  string
+	typ       types.Type // Go type of the designated location, when known
 }
 
 func (c *evalCtx) designatorKeys(x Expr) []desigKey {
@@ -992,7 +1007,7 @@ func (c *evalCtx) designatorKeys(x Expr) []desigKey {
 			su := st.Underlying().(*types.Struct)
 			f := su.Field(index[0])
 			k, ks := e.fieldKey(st, f)
-			return []desigKey{{key: k, sort: ks, index: obj.T, elemSort: arrayElemSort(ks)}}
+			return []desigKey{{key: k, sort: ks, index: obj.T, elemSort: arrayElemSort(ks), typ: f.Type()}}
 		}
 	}
 	return nil
